@@ -803,3 +803,466 @@ Example page_fits_ansi_refuted :
                     /\ map (@length N) (split_on 10%N sp) = [13; 10; 0]
   | _, _ => False end.
 Proof. split; [repeat constructor; nl_char|]. vm_compute. repeat split; reflexivity. Qed.
+
+(* ================= "help <path>" = "<path> --help" = "<path> -h": what the RUN does ================= *)
+(* help_same_page equates the help targets.  What a run does with the line (Model/Switches.v run_summary) is decided before
+   the target is looked up, in two different ways: for "help <path>" the resolver walks to the command "help" and parses the
+   line with its format, under the command's own leniency; for "<path> --help" the PRE_RESOLVE listener parses the line
+   leniently with the help command's format - there the first word lands on the pseudo-argument of the command name, is not
+   "help", and the whole path is moved to the argument "command".  Proofs/HelpRunLemmas.v: both parses are instances of
+   parse_spells (C01), which gives their values; in both "command" is set and the version switch is not.
+   The configuration (default_help_config): the global help option (defines_help), NO global argument, and the command
+   "help" as DefaultApplicationConfig.configure() defines it (is_help_command: named help, no alias, not anonymous, enabled,
+   no sub-command, the single argument "command" multi-valued, optional, string; default or not, lenient or not, with or
+   without options of its own).  The path: plain tokens, not empty, the first one not the word "help". *)
+From Clikit Require Import Proofs.FormatLemmas Proofs.FmtOkLemmas Proofs.HelpRunLemmas.
+(* each of the three runs shows the page of the help target of "help <path>" (help_page: AHelpCmd p), or reports the failure to
+   find it (AHelpFail k) *)
+Theorem help_same_page_run : forall cfg a debug path,
+  build_app cfg = Ok a -> default_help_config cfg = true ->
+  forallb lead_ok path = true -> path <> [] ->
+  (match path with t :: _ => str_eqb t S_help = false | [] => True end) ->
+  sm_action (run_summary debug a (S_help :: path)) = help_page a (S_help :: path) /\
+  sm_action (run_summary debug a (path ++ [T_help])) = help_page a (S_help :: path) /\
+  sm_action (run_summary debug a (path ++ [T_h])) = help_page a (S_help :: path).
+Proof. exact help_same_run. Qed.
+Print Assumptions help_same_page_run.
+Theorem help_same_action_run : forall cfg a debug path,
+  build_app cfg = Ok a -> default_help_config cfg = true ->
+  forallb lead_ok path = true -> path <> [] ->
+  (match path with t :: _ => str_eqb t S_help = false | [] => True end) ->
+  sm_action (run_summary debug a (S_help :: path)) = sm_action (run_summary debug a (path ++ [T_help])) /\
+  sm_action (run_summary debug a (S_help :: path)) = sm_action (run_summary debug a (path ++ [T_h])).
+Proof. exact help_same_action. Qed.
+Print Assumptions help_same_action_run.
+(* the value of the two parses behind it, for the format f of the help command: "help <path>" under any leniency, and
+   "<path> <switch>" - the arguments are the path placed on "command", the only option set is the switch *)
+Theorem help_line_parses : forall f a path len, fmt_inv f -> get_arguments_all f = [(a_name a, a)] ->
+  get_command_names_all f = [help_cname] -> a_multi a = true -> a_type a = TStr ->
+  forallb lead_ok path = true -> path <> [] ->
+  parse f len (S_help :: path) = Ok {| ar_opts := []; ar_args := help_args f path |}.
+Proof. intros. now apply (parse_help_line f a). Qed.
+Print Assumptions help_line_parses.
+Theorem switch_line_parses : forall f o sw len path x,
+  carries o f -> no_value o -> help_switch_of o sw -> forallb lead_ok path = true ->
+  parse f len path = Ok x -> ar_opts x = [] ->
+  parse f len (path ++ [sw]) = Ok {| ar_opts := [(S_help, VBool true)]; ar_args := ar_args x |}.
+Proof. exact parse_switch_value. Qed.
+Print Assumptions switch_line_parses.
+
+(* the DefaultApplicationConfig-like ex_dcfg satisfies the hypotheses; the three runs print the page of "server run" *)
+Example ex_run_hypotheses : default_help_config ex_dcfg = true /\ forallb lead_ok [SERVER] = true /\ str_eqb SERVER S_help = false.
+Proof. vm_compute. repeat split; reflexivity. Qed.
+Example ex_run_applied : forall a debug, build_app ex_dcfg = Ok a ->
+  sm_action (run_summary debug a [S_help; SERVER]) = sm_action (run_summary debug a [SERVER; T_help]) /\
+  sm_action (run_summary debug a [S_help; SERVER]) = sm_action (run_summary debug a [SERVER; T_h]).
+Proof. intros a debug Ha. apply (help_same_action_run ex_dcfg a debug [SERVER] Ha); try reflexivity. discriminate. Qed.
+Example ex_run_computed :
+  match build_app ex_dcfg with
+  | Ok a =>
+    sm_action (run_summary false a [S_help; SERVER]) = AHelpCmd [SERVER; RUN] /\
+    sm_action (run_summary false a [SERVER; T_help]) = AHelpCmd [SERVER; RUN] /\
+    sm_action (run_summary false a [SERVER; T_h]) = AHelpCmd [SERVER; RUN] /\
+    (* the same failure: "secret" takes an integer *)
+    sm_action (run_summary false a [S_help; SERVER; SECRET; ADD]) = AHelpFail ValueError /\
+    sm_action (run_summary false a [SERVER; SECRET; ADD; T_help]) = AHelpFail ValueError /\
+    sm_action (run_summary false a [SERVER; SECRET; ADD; T_h]) = AHelpFail ValueError /\
+    (* a word that names no command *)
+    sm_action (run_summary false a [S_help; X7]) = sm_action (run_summary false a [X7; T_help])
+  | Err _ => False end.
+Proof. vm_compute. repeat split; reflexivity. Qed.
+(* NEEDED - the first word is not "help": help_same_page_refuted_help_command above ("help help" prints the page of the help
+   command, "help --help" the application page).
+   NEEDED - no global argument.  The same configuration with two REQUIRED global arguments g1, g2 (a configuration that
+   extends DefaultApplicationConfig by add_argument): "help server" is parsed STRICTLY with the help command's format -
+   help, g1 = server, g2 missing - and the run fails (CannotParse: Not enough arguments (missing: "g2")), while the lenient
+   parse of "server --help" succeeds, leaves "command" unset, and the application page is printed.  Observed alike on the
+   Python code (ConsoleApplication over a DefaultApplicationConfig with add_argument("g1", REQUIRED), add_argument("g2",
+   REQUIRED): "help server" -> status 1, "server --help" / "server -h" -> name and version, status 0). *)
+Definition a_g1 : arg := {| a_name := [103;49]%N; a_flags := 1 + 16; a_default := VNone |}.
+Definition a_g2 : arg := {| a_name := [103;50]%N; a_flags := 1 + 16; a_default := VNone |}.
+Definition ex_dcfg_gargs : appcfg := {| ac_opts := [o_help; o_verbose]; ac_args := [a_g1; a_g2]; ac_cmds := [c_help; c_server] |}.
+Example help_same_run_needs_no_global_argument :
+  match build_app ex_dcfg_gargs with
+  | Ok a =>
+    default_help_config ex_dcfg_gargs = false /\ defines_help ex_dcfg_gargs = true /\
+    existsb is_help_command (ac_cmds ex_dcfg_gargs) = true /\
+    sm_action (run_summary false a [S_help; SERVER]) = AError CannotParse /\
+    sm_action (run_summary false a [SERVER; T_help]) = AHelpApp /\
+    sm_action (run_summary false a [SERVER; T_h]) = AHelpApp /\
+    (* the help targets agree all the same (help_same_page) *)
+    help_target a [S_help; SERVER] = help_target a [SERVER; T_help]
+  | Err _ => False end.
+Proof. vm_compute. repeat split; reflexivity. Qed.
+
+(* ================= the plain and the ANSI formatter RENDER the page ================= *)
+(* page_fits_plain / page_fits_ansi_visible above say: IF the page renders, it fits.  Here the success half, for the real
+   formatters (Proofs/HelpRenderLemmas.v).
+   What can go wrong.  Apart from the wrap width (needed_width), render_page fails only where the formatter - pastel's
+   colorize - refuses a message: an inline style with an unknown colour, or a closing tag of a known style that is not on
+   the (non-empty) style stack: "Incorrectly nested style tag found".  Whether it does depends on the tags the scanner finds
+   and on the stack, not on the decoration: effect sty a0 m sk is the stack after the message m (colorize_is_effect), the
+   same for the plain and the ANSI formatter (decoration_irrelevant).
+   What the formatter sees.  BlockLayout hands it ONE message per element: indentation, label, blanks up to the text column,
+   and the text as textwrap wrapped it - the lines joined by a line break and the blanks of the text column.  A tag pair that
+   ends up on two lines is still in one message: harmless (the effect acts piecewise across blanks and line breaks:
+   effect_across_blank).  But textwrap breaks a word that is longer than the line, and may break behind a hyphen; a word that
+   holds a tag can be cut INSIDE the tag, the tag is then ordinary text, its partner stays: the stack leaks, or a closing tag
+   finds nothing to close.  Rendering well-nested, registered markup therefore FAILS at some widths: page_renders_refuted
+   below.
+   "Good": a text is good at the wrap width w (text_ok) when it holds no "<" at all (then nothing can go wrong, whatever is
+   broken), or when (a) every word of it fits w (words_fit: the chunks textwrap.wrap splits it into; nothing is broken),
+   (b) no tag name holds a hyphen (no_hyphen_in_tags: no line break inside a tag) and (c) the text is neutral: the
+   formatter takes it whatever the stack and leaves the stack as it was.  An element is good (elem_ok) when its label is
+   neutral and does not end with a backslash, label and text are at least one blank apart, and the text is good at the
+   element's wrap width.  All of it is decidable: layout_okb. *)
+From Clikit Require Import Proofs.HelpRenderLemmas.
+
+Theorem colorize_is_effect : forall sty colored sk m,
+  match colorize sty colored sk m with
+  | Ok x => effect sty (ends_with_bsl m) m sk = Ok (fst x)
+  | Err k => effect sty (ends_with_bsl m) m sk = Err k
+  end.
+Proof. exact colorize_effect. Qed.
+Print Assumptions colorize_is_effect.
+Theorem decoration_irrelevant : forall sty sk m sk',
+  (exists o, colorize sty true sk m = Ok (sk', o)) <-> (exists o, colorize sty false sk m = Ok (sk', o)).
+Proof. exact colorize_ok_iff. Qed.
+Print Assumptions decoration_irrelevant.
+Theorem effect_across_blank : forall sty a0 a sep b sk, is_space sep = true ->
+  effect sty a0 (a ++ sep :: b) sk = (do s1 <- effect sty a0 a sk; effect sty false b s1).
+Proof. intros. apply effect_sep. now apply inert_space. Qed.
+Print Assumptions effect_across_blank.
+(* wrapping a text none of whose words has to be broken, and that has no hyphen in a tag name, keeps its effect: the lines,
+   one after the other, do to the stack what the text does *)
+Theorem wrap_keeps_effect : forall sty t w ls sk, wrap t w = Ok ls -> words_fit w t -> no_hyphen_in_tags (munge t) ->
+  effects sty ls sk = effect sty false (munge t) sk.
+Proof. intros sty t w ls sk Hw Hf Hn. apply (wrap_effect sty t w ls sk Hw Hf). now apply nh_cuts. Qed.
+Print Assumptions wrap_keeps_effect.
+
+(* For EVERY layout, width, style table and state of the style stack: a good layout renders on a terminal that leaves room for
+   one character behind every indentation and VISIBLE label (needed_width_for: at most needed_width) ... *)
+Theorem page_renders_plain : forall W f l, f_kind f = FPlain -> (needed_width_for (f_styles f) l <= W)%Z ->
+  layout_ok (f_styles f) W l -> exists s, render_page W f l = Ok s.
+Proof. exact page_renders_plain_lemma. Qed.
+Print Assumptions page_renders_plain.
+Theorem page_renders_ansi : forall W f l, is_ansi f -> (needed_width_for (f_styles f) l <= W)%Z ->
+  layout_ok (f_styles f) W l -> exists s, render_page W f l = Ok s.
+Proof. exact page_renders_ansi_lemma. Qed.
+Print Assumptions page_renders_ansi.
+Theorem needed_width_for_at_most : forall sty l, (needed_width_for sty l <= needed_width l)%Z.
+Proof. exact needed_width_for_le. Qed.
+Print Assumptions needed_width_for_at_most.
+(* ... and fits *)
+Theorem page_renders_and_fits_plain : forall W f l, f_kind f = FPlain -> one_line_labels l ->
+  (needed_width_for (f_styles f) l <= W)%Z -> layout_ok (f_styles f) W l ->
+  exists s, render_page W f l = Ok s /\ Forall (fun ln => (zlen ln <= W - 1)%Z) (split_on 10%N s).
+Proof. exact page_renders_and_fits_plain_lemma. Qed.
+Print Assumptions page_renders_and_fits_plain.
+Theorem page_renders_and_fits_ansi_visible : forall W f l, is_ansi f -> one_line_labels l -> clean_layout l ->
+  (needed_width_for (f_styles f) l <= W)%Z -> layout_ok (f_styles f) W l ->
+  exists s, render_page W f l = Ok s /\ Forall (fun ln => (zlen (strip_sgr ln) <= W - 1)%Z) (split_on 10%N s).
+Proof. exact page_renders_and_fits_ansi_lemma. Qed.
+Print Assumptions page_renders_and_fits_ansi_visible.
+(* the hypothesis is decidable *)
+Theorem layout_ok_decided : forall sty W l, layout_okb sty W l = true -> layout_ok sty W l.
+Proof. exact layout_okb_ok. Qed.
+Print Assumptions layout_ok_decided.
+(* a text without "<" is good at every width, whatever textwrap breaks *)
+Theorem tag_free_text_ok : forall sty w t, no_lt t -> text_ok sty w t.
+Proof. intros. now left. Qed.
+
+(* ---- examples ---- *)
+(* the command page with tagged descriptions (ex_tpage: <info>, <b> in the descriptions) is good from 41 columns on - the
+   identity formatter needs 44 - and renders and fits through both formatters; the hypotheses by computation *)
+Example ex_tpage_good : needed_width_for (f_styles ex_plainf) ex_tpage = 23%Z /\
+  layout_okb (f_styles ex_plainf) 41 ex_tpage = true /\ layout_okb (f_styles ex_plainf) 40 ex_tpage = false /\
+  layout_okb (f_styles ex_plainf) 80 ex_tpage = true.
+Proof. vm_compute. repeat split; reflexivity. Qed.
+Example ex_tpage_renders_plain : forall W, W = 41%Z \/ W = 80%Z ->
+  exists s, render_page W ex_plainf ex_tpage = Ok s /\ Forall (fun ln => (zlen ln <= W - 1)%Z) (split_on 10%N s).
+Proof.
+  intros W HW. apply page_renders_and_fits_plain; [reflexivity| | |].
+  - apply command_page_one_line; cbn; repeat constructor; try nl_char.
+  - destruct HW as [-> | ->]; vm_compute; discriminate.
+  - apply layout_ok_decided. destruct HW as [-> | ->]; vm_compute; reflexivity.
+Qed.
+Example ex_tpage_renders_ansi : forall W, W = 41%Z \/ W = 80%Z ->
+  exists s, render_page W ex_ansif ex_tpage = Ok s /\ Forall (fun ln => (zlen (strip_sgr ln) <= W - 1)%Z) (split_on 10%N s).
+Proof.
+  intros W HW. apply page_renders_and_fits_ansi_visible; [exact I| |exact (good_clean _ ex_ansi_good)| |].
+  - apply command_page_one_line; cbn; repeat constructor; try nl_char.
+  - destruct HW as [-> | ->]; vm_compute; discriminate.
+  - apply layout_ok_decided. destruct HW as [-> | ->]; vm_compute; reflexivity.
+Qed.
+(* at 30 columns the page still renders (ex_plain_renders above) though words have to be broken: the condition is sufficient,
+   not necessary *)
+
+(* REFUTED without "every word fits".  A paragraph <u>aaaaaaaaaaaaaaaaaaaaaaaaaaaaaa</u> (30 letters) and an option
+   <c1>--</c1> with the text "Force the operation <b>(default: 3)</b>": every tag well nested and registered, every label and
+   text neutral; 17 columns are enough for the identity formatter (needed_width), 8 for the plain one.  At 18 columns the
+   paragraph is wrapped at 17: "<u>aaaaaaaaaaaaaa" / "aaaaaaaaaaaaaaaa<" / "/u>" - the closing tag is cut, the style u stays
+   open; the option's text is wrapped at 11: "Force the" / "operation <" / "b>(default:" / "3)</b>" - the opening tag is cut
+   (the long word "<b>(default:" is broken where the line ends), the closing one is found, and the style b is not on
+   the stack [u]: ValueError.  At 17 and 19 columns the page renders.  Observed alike on the Python code (BlockLayout with a
+   Paragraph and a LabeledParagraph on a BufferedIO of width 18, PlainFormatter and AnsiFormatter over the DefaultStyleSet:
+   ValueError "Incorrectly nested style tag found."; widths 17 and 19: no error). *)
+Definition ex_cut_layout : layout :=
+  [(0%nat, EPara ([60;117;62]%N ++ repeat 97%N 30 ++ [60;47;117;62]%N));
+   (2%nat, ELab [60;99;49;62;45;45;60;47;99;49;62]%N (* <c1>--</c1> *)
+                [70;111;114;99;101;32;116;104;101;32;111;112;101;114;97;116;105;111;110;32;60;98;62;40;100;101;102;97;117;108;116;58;32;51;41;60;47;98;62]%N
+                (* Force the operation <b>(default: 3)</b> *) 2 true)].
+Example page_renders_refuted :
+  needed_width ex_cut_layout = 17%Z /\ needed_width_for (f_styles ex_plainf) ex_cut_layout = 8%Z /\
+  (* labels and texts are neutral, no hyphen in a tag: all that is missing at 18 columns is that the words fit *)
+  forallb (fun x => neutralb (f_styles ex_plainf) (elem_label (snd x)) && neutralb (f_styles ex_plainf) (munge (elem_text (snd x)))
+                    && nhb (munge (elem_text (snd x)))) ex_cut_layout = true /\
+  layout_okb (f_styles ex_plainf) 18 ex_cut_layout = false /\ layout_okb (f_styles ex_plainf) 38 ex_cut_layout = true /\
+  render_page 18 ex_plainf ex_cut_layout = Err ValueError /\ render_page 18 ex_ansif ex_cut_layout = Err ValueError /\
+  (match render_page 17 ex_plainf ex_cut_layout, render_page 19 ex_plainf ex_cut_layout, render_page 38 ex_plainf ex_cut_layout with
+   | Ok _, Ok _, Ok _ => True | _, _, _ => False end) /\
+  render_page 18 ex_null ex_cut_layout <> Err ValueError.
+Proof. vm_compute. repeat split; try reflexivity. discriminate. Qed.
+
+(* ================= the help pages render ================= *)
+(* The labels the help model builds - <c1>--opt</c1> (-o), <c1><</c1><c1>name></c1>, <c1>command</c1>, the synopsis label
+   <u>app</u> <u>cmd</u> [<u>sub</u>] - and its headings <b>...</b> are good once and for all (calm: neutral, no hyphen in a
+   tag name, nothing pending behind them), whatever the style table: *)
+Theorem help_labels_calm : forall sty,
+  (forall h, plain (o_long (h_o h)) -> (match o_short (h_o h) with Some s => plain s | None => True end) ->
+             calm sty (elem_label (render_option h)))
+  /\ (forall a, plain (a_name (h_a a)) -> calm sty (elem_label (render_argument a)))
+  /\ (forall n, plain n -> calm sty (C1 ++ n ++ C1E))
+  /\ (forall app_name names opts args prefix lo,
+        (match app_name with Some n => plain n | None => True end) -> Forall plain names -> plain prefix ->
+        calm sty (elem_label (synopsis sty app_name names opts args prefix lo)))
+  /\ markup_fine sty H_USAGE /\ markup_fine sty H_ARGUMENTS /\ markup_fine sty H_COMMANDS /\ markup_fine sty H_OPTIONS
+  /\ markup_fine sty H_GLOBAL /\ markup_fine sty H_AVAILABLE.
+Proof.
+  intros sty. split; [exact (option_label_calm sty)|]. split; [exact (argument_label_calm sty)|]. split; [exact (command_label_calm sty)|].
+  split; [exact (synopsis_label_calm sty)|]. repeat split; first [apply H_USAGE_fine|apply H_ARGUMENTS_fine|apply H_COMMANDS_fine|apply H_OPTIONS_fine|apply H_GLOBAL_fine|apply H_AVAILABLE_fine].
+Qed.
+Print Assumptions help_labels_calm.
+(* calm texts one behind the other are calm; a pair of tags of a style name without hyphen and "=" around calm text is calm *)
+Theorem calm_composes : forall sty a b, calm sty a -> calm sty b -> calm sty (a ++ b).
+Proof. exact calm_app. Qed.
+Print Assumptions calm_composes.
+Theorem calm_tag_pair : forall sty nm x, simple_nm nm -> calm sty x -> calm sty (tag_str false nm ++ x ++ tag_str true nm).
+Proof. exact calm_wrap. Qed.
+Print Assumptions calm_tag_pair.
+
+(* The pages.  The configuration (opt_fine, arg_fine, sub_fine): the names put between tags (application, commands, options,
+   arguments, version) hold no "<" and no backslash (plain); descriptions, help texts, aliases, the display name hold no "<"
+   (tag-free descriptions: the simplest good markup); a default value as json.dumps writes it holds no "<"; the names shown as
+   <name> placeholders in the synopsis (value names, argument names) hold no white space and are either tag-like names without
+   hyphen and "=" - escaped by the help model when they are styles - or start no tag at all ("<...>", the default value name)
+   (ph_name).  The width: room for the visible labels (needed_width_for) and, for the texts the model puts tags into, no word to
+   break (page_words_fit: decidable, page_words_fitb).  Then the page renders through the formatter whose style table it was
+   built with, whatever the state of its style stack, and every line fits. *)
+Theorem command_help_renders_and_fits_plain : forall W f app_name ch aliases help subs,
+  f_kind f = FPlain ->
+  (match app_name with Some n => no_nl n | None => True end) -> Forall no_nl (chain_names ch) ->
+  Forall arg_one_line (chain_args ch) -> Forall opt_one_line (own_opts ch) -> Forall opt_one_line (base_opts ch) ->
+  Forall sub_one_line subs ->
+  (match app_name with Some n => plain n | None => True end) -> Forall plain (chain_names ch) ->
+  Forall arg_fine (chain_args ch) -> Forall opt_fine (own_opts ch) -> Forall opt_fine (base_opts ch) ->
+  Forall sub_fine subs -> Forall no_lt aliases -> no_lt (odesc help) ->
+  (needed_width_for (f_styles f) (command_page (f_styles f) app_name ch aliases help subs) <= W)%Z ->
+  page_words_fit (f_styles f) W (command_page (f_styles f) app_name ch aliases help subs) ->
+  exists s, render_page W f (command_page (f_styles f) app_name ch aliases help subs) = Ok s
+            /\ Forall (fun ln => (zlen ln <= W - 1)%Z) (split_on 10%N s).
+Proof. exact command_help_renders_and_fits_plain_lemma. Qed.
+Print Assumptions command_help_renders_and_fits_plain.
+Theorem command_help_renders_and_fits_ansi_visible : forall W f app_name ch aliases help subs,
+  is_ansi f ->
+  (match app_name with Some n => no_nl n | None => True end) -> Forall no_nl (chain_names ch) ->
+  Forall arg_one_line (chain_args ch) -> Forall opt_one_line (own_opts ch) -> Forall opt_one_line (base_opts ch) ->
+  Forall sub_one_line subs ->
+  (match app_name with Some n => plain n | None => True end) -> Forall plain (chain_names ch) ->
+  Forall arg_fine (chain_args ch) -> Forall opt_fine (own_opts ch) -> Forall opt_fine (base_opts ch) ->
+  Forall sub_fine subs -> Forall no_lt aliases -> no_lt (odesc help) ->
+  clean_layout (command_page (f_styles f) app_name ch aliases help subs) ->
+  (needed_width_for (f_styles f) (command_page (f_styles f) app_name ch aliases help subs) <= W)%Z ->
+  page_words_fit (f_styles f) W (command_page (f_styles f) app_name ch aliases help subs) ->
+  exists s, render_page W f (command_page (f_styles f) app_name ch aliases help subs) = Ok s
+            /\ Forall (fun ln => (zlen (strip_sgr ln) <= W - 1)%Z) (split_on 10%N s).
+Proof. exact command_help_renders_and_fits_ansi_lemma. Qed.
+Print Assumptions command_help_renders_and_fits_ansi_visible.
+Theorem application_help_renders_and_fits_plain : forall W f app_name display version gopts cmds help,
+  f_kind f = FPlain ->
+  (match app_name with Some n => no_nl n | None => True end) -> Forall opt_one_line gopts -> Forall (fun c => no_nl (ac_name c)) cmds ->
+  (match app_name with Some n => plain n | None => True end) ->
+  no_lt (odesc display) -> plain (odesc version) -> Forall opt_fine gopts ->
+  Forall (fun c => plain (ac_name c) /\ no_lt (ac_desc c)) cmds -> no_lt (odesc help) ->
+  (needed_width_for (f_styles f) (application_page (f_styles f) app_name display version gopts cmds help) <= W)%Z ->
+  page_words_fit (f_styles f) W (application_page (f_styles f) app_name display version gopts cmds help) ->
+  exists s, render_page W f (application_page (f_styles f) app_name display version gopts cmds help) = Ok s
+            /\ Forall (fun ln => (zlen ln <= W - 1)%Z) (split_on 10%N s).
+Proof. exact application_help_renders_and_fits_plain_lemma. Qed.
+Print Assumptions application_help_renders_and_fits_plain.
+Theorem application_help_renders_and_fits_ansi_visible : forall W f app_name display version gopts cmds help,
+  is_ansi f ->
+  (match app_name with Some n => no_nl n | None => True end) -> Forall opt_one_line gopts -> Forall (fun c => no_nl (ac_name c)) cmds ->
+  (match app_name with Some n => plain n | None => True end) ->
+  no_lt (odesc display) -> plain (odesc version) -> Forall opt_fine gopts ->
+  Forall (fun c => plain (ac_name c) /\ no_lt (ac_desc c)) cmds -> no_lt (odesc help) ->
+  clean_layout (application_page (f_styles f) app_name display version gopts cmds help) ->
+  (needed_width_for (f_styles f) (application_page (f_styles f) app_name display version gopts cmds help) <= W)%Z ->
+  page_words_fit (f_styles f) W (application_page (f_styles f) app_name display version gopts cmds help) ->
+  exists s, render_page W f (application_page (f_styles f) app_name display version gopts cmds help) = Ok s
+            /\ Forall (fun ln => (zlen (strip_sgr ln) <= W - 1)%Z) (split_on 10%N s).
+Proof. exact application_help_renders_and_fits_ansi_lemma. Qed.
+Print Assumptions application_help_renders_and_fits_ansi_visible.
+(* what the model's own texts need of the width is decidable *)
+Theorem page_words_fit_decided : forall sty W l, page_words_fitb sty W l = true -> page_words_fit sty W l.
+Proof. exact page_words_fitb_ok. Qed.
+Print Assumptions page_words_fit_decided.
+
+(* ---- the hypotheses are met: the command page of the examples above (tag-free descriptions, an option with the value
+   name "..." and one with a default, an argument, four sub-commands), built with the styles of the formatter ---- *)
+Ltac ex_plain := split; repeat constructor; discriminate.
+Ltac ex_notin := cbn; let H := fresh in intros H; repeat (destruct H as [H|H]; [discriminate|]); exact H.
+Ltac ex_tagname := split; [repeat constructor|left; split; [split; [reflexivity|repeat constructor]|split; ex_notin]].
+Lemma ex_level_fine : opt_fine ex_level.
+Proof. split; [ex_plain|]. split; [ex_plain|]. split; [constructor|]. split; [ex_tagname|repeat constructor; discriminate]. Qed.
+Lemma ex_force_fine : opt_fine ex_force.
+Proof.
+  split; [ex_plain|]. split; [ex_plain|]. split; [apply no_ltb_ok; vm_compute; reflexivity|].
+  split; [|repeat constructor; discriminate].
+  split; [repeat constructor|right]. exists 46%N, [46; 46]%N. repeat split; try reflexivity; try discriminate. repeat constructor; discriminate.
+Qed.
+Lemma ex_file_fine : arg_fine ex_file.
+Proof. split; [ex_plain|]. split; [ex_tagname|]. split; [apply no_ltb_ok; vm_compute; reflexivity|]. split; [repeat constructor; discriminate|reflexivity]. Qed.
+Lemma ex_sub_fine name hidden enabled : plain name -> sub_fine (ex_sub name hidden enabled).
+Proof.
+  intros Hn. split; [exact Hn|]. split; [apply no_ltb_ok; vm_compute; reflexivity|]. split; [constructor|].
+  split; [constructor; [exact ex_file_fine|constructor]|constructor; [exact ex_level_fine|constructor]].
+Qed.
+Definition ex_page_for (f : formatter) : layout := command_page (f_styles f) (Some APP) ex_chain [SRV] (Some DESC_FILE) ex_subs.
+Example ex_page_widths : needed_width_for (f_styles ex_plainf) (ex_page_for ex_plainf) = 23%Z /\
+  page_words_fitb (f_styles ex_plainf) 34 (ex_page_for ex_plainf) = true /\ page_words_fitb (f_styles ex_plainf) 33 (ex_page_for ex_plainf) = false /\
+  page_words_fitb (f_styles ex_plainf) 80 (ex_page_for ex_plainf) = true.
+Proof. vm_compute. repeat split; reflexivity. Qed.
+Example ex_page_renders_plain : forall W, W = 34%Z \/ W = 80%Z ->
+  exists s, render_page W ex_plainf (ex_page_for ex_plainf) = Ok s /\ Forall (fun ln => (zlen ln <= W - 1)%Z) (split_on 10%N s).
+Proof.
+  intros W HW.
+  assert (Forall arg_fine (chain_args ex_chain)) as A1 by (cbn; constructor; [exact ex_file_fine|constructor]).
+  assert (Forall opt_fine (own_opts ex_chain)) as A2 by (cbn; constructor; [exact ex_force_fine|constructor]).
+  assert (Forall opt_fine (base_opts ex_chain)) as A3 by (cbn; constructor; [exact ex_level_fine|constructor]).
+  assert (Forall sub_fine ex_subs) as A4 by (unfold ex_subs; repeat (constructor; [apply ex_sub_fine; ex_plain|]); constructor).
+  assert (Forall plain (chain_names ex_chain)) as A5 by (cbn; constructor; [ex_plain|constructor]).
+  assert (Forall no_nl (chain_names ex_chain)) as B1 by (cbn; repeat constructor; nl_char).
+  assert (Forall arg_one_line (chain_args ex_chain)) as B2 by (cbn; repeat constructor; nl_char).
+  assert (Forall opt_one_line (own_opts ex_chain)) as B3 by (cbn; repeat constructor; nl_char).
+  assert (Forall opt_one_line (base_opts ex_chain)) as B4 by (cbn; repeat constructor; nl_char).
+  assert (Forall sub_one_line ex_subs) as B5 by (cbn; repeat constructor; nl_char).
+  assert (no_nl APP) as B6 by (repeat constructor; nl_char).
+  assert (plain APP) as A6 by ex_plain.
+  assert (Forall no_lt [SRV]) as A7 by (repeat constructor; discriminate).
+  assert (no_lt (odesc (Some DESC_FILE))) as A8 by (apply no_ltb_ok; vm_compute; reflexivity).
+  apply (command_help_renders_and_fits_plain W ex_plainf (Some APP) ex_chain [SRV] (Some DESC_FILE) ex_subs eq_refl B6 B1 B2 B3 B4 B5 A6 A5 A1 A2 A3 A4 A7 A8).
+  - destruct HW as [-> | ->]; vm_compute; discriminate.
+  - apply page_words_fit_decided. destruct HW as [-> | ->]; vm_compute; reflexivity.
+Qed.
+(* the same page through the ANSI formatter (clean_layout by computation) *)
+Example ex_page_renders_ansi : forall W, W = 34%Z \/ W = 80%Z ->
+  exists s, render_page W ex_ansif (ex_page_for ex_ansif) = Ok s /\ Forall (fun ln => (zlen (strip_sgr ln) <= W - 1)%Z) (split_on 10%N s).
+Proof.
+  intros W HW.
+  assert (Forall arg_fine (chain_args ex_chain)) as A1 by (cbn; constructor; [exact ex_file_fine|constructor]).
+  assert (Forall opt_fine (own_opts ex_chain)) as A2 by (cbn; constructor; [exact ex_force_fine|constructor]).
+  assert (Forall opt_fine (base_opts ex_chain)) as A3 by (cbn; constructor; [exact ex_level_fine|constructor]).
+  assert (Forall sub_fine ex_subs) as A4 by (unfold ex_subs; repeat (constructor; [apply ex_sub_fine; ex_plain|]); constructor).
+  assert (Forall plain (chain_names ex_chain)) as A5 by (cbn; constructor; [ex_plain|constructor]).
+  assert (Forall no_nl (chain_names ex_chain)) as B1 by (cbn; repeat constructor; nl_char).
+  assert (Forall arg_one_line (chain_args ex_chain)) as B2 by (cbn; repeat constructor; nl_char).
+  assert (Forall opt_one_line (own_opts ex_chain)) as B3 by (cbn; repeat constructor; nl_char).
+  assert (Forall opt_one_line (base_opts ex_chain)) as B4 by (cbn; repeat constructor; nl_char).
+  assert (Forall sub_one_line ex_subs) as B5 by (cbn; repeat constructor; nl_char).
+  assert (no_nl APP) as B6 by (repeat constructor; nl_char).
+  assert (plain APP) as A6 by ex_plain.
+  assert (Forall no_lt [SRV]) as A7 by (repeat constructor; discriminate).
+  assert (no_lt (odesc (Some DESC_FILE))) as A8 by (apply no_ltb_ok; vm_compute; reflexivity).
+  assert (clean_layout (command_page (f_styles ex_ansif) (Some APP) ex_chain [SRV] (Some DESC_FILE) ex_subs)) as C
+    by (apply clean_layoutb_ok; vm_compute; reflexivity).
+  apply (command_help_renders_and_fits_ansi_visible W ex_ansif (Some APP) ex_chain [SRV] (Some DESC_FILE) ex_subs I B6 B1 B2 B3 B4 B5 A6 A5 A1 A2 A3 A4 A7 A8 C).
+  - destruct HW as [-> | ->]; vm_compute; discriminate.
+  - apply page_words_fit_decided. destruct HW as [-> | ->]; vm_compute; reflexivity.
+Qed.
+(* the application page of the examples above: needs 18 columns for its labels, 29 for the words of its tagged texts *)
+Definition ex_app_page_for (f : formatter) : layout :=
+  application_page (f_styles f) (Some APP) (Some APP) (Some ([49;46;50]%N)) [ex_force; ex_level] ex_cmds (Some DESC_FILE).
+Example ex_app_page_renders_plain : forall W, W = 29%Z \/ W = 80%Z ->
+  needed_width_for (f_styles ex_plainf) (ex_app_page_for ex_plainf) = 18%Z /\ page_words_fitb (f_styles ex_plainf) 28 (ex_app_page_for ex_plainf) = false /\
+  exists s, render_page W ex_plainf (ex_app_page_for ex_plainf) = Ok s /\ Forall (fun ln => (zlen ln <= W - 1)%Z) (split_on 10%N s).
+Proof.
+  intros W HW. split; [vm_compute; reflexivity|]. split; [vm_compute; reflexivity|].
+  assert (Forall opt_fine [ex_force; ex_level]) as A1 by (constructor; [exact ex_force_fine|constructor; [exact ex_level_fine|constructor]]).
+  assert (Forall (fun c => plain (ac_name c) /\ no_lt (ac_desc c)) ex_cmds) as A2
+    by (unfold ex_cmds; repeat (constructor; [split; [ex_plain|apply no_ltb_ok; vm_compute; reflexivity]|]); constructor).
+  assert (Forall opt_one_line [ex_force; ex_level]) as B1 by (cbn; repeat constructor; nl_char).
+  assert (Forall (fun c => no_nl (ac_name c)) ex_cmds) as B2 by (cbn; repeat constructor; nl_char).
+  assert (no_nl APP) as B3 by (repeat constructor; nl_char).
+  assert (plain APP) as A3 by ex_plain.
+  assert (no_lt (odesc (Some APP))) as A4 by (repeat constructor; discriminate).
+  assert (plain (odesc (Some ([49;46;50]%N)))) as A5 by ex_plain.
+  assert (no_lt (odesc (Some DESC_FILE))) as A6 by (apply no_ltb_ok; vm_compute; reflexivity).
+  apply (application_help_renders_and_fits_plain W ex_plainf (Some APP) (Some APP) (Some ([49;46;50]%N)) [ex_force; ex_level] ex_cmds (Some DESC_FILE)
+           eq_refl B3 B1 B2 A3 A4 A5 A1 A2 A6).
+  - destruct HW as [-> | ->]; vm_compute; discriminate.
+  - apply page_words_fit_decided. destruct HW as [-> | ->]; vm_compute; reflexivity.
+Qed.
+
+(* REFUTED for the help pages without "no word to break" (page_words_fit), when the style stack is not empty - the theorems are
+   for every state of the stack.  The command "c" of the application "a" with the single option --xx (an integer, default 3,
+   value name "level", description "abcdef"): tag-free, all configuration hypotheses met; the page needs 10 columns.  The style u
+   is open (an earlier write("<u>x") on the same IO).  At 17 columns the option's text "abcdef <b>(default: 3)</b>" is
+   wrapped at 8: "abcdef <" / "b>(defau" / "lt:" / "3)</b>" - at 17 and 18 columns the cut falls so that "<b>" is torn and
+   "</b>" is not, and the closing tag does not find b on the stack [u]: ValueError.  With the empty stack, or at 16 and 19 columns, the page renders.
+   Observed alike on the Python code (CommandHelp of such a command on a BufferedIO of width 17 / 18 after io.write("<u>x"),
+   PlainFormatter and AnsiFormatter: ValueError "Incorrectly nested style tag found."; widths 14-16 and 19-21, or no earlier
+   write: no error). *)
+Definition ex_xx : hopt :=
+  {| h_o := {| o_long := [120;120]%N; o_short := None; o_flags := 8 + 512 + 1; o_default := VInt 3 |};
+     h_odesc := Some [97;98;99;100;101;102]%N; h_vname := LEVEL |}.
+Definition ex_xx_page : layout :=
+  command_page (f_styles ex_plainf) (Some [97]%N) [{| lv_name := Some [99]%N; lv_opts := [ex_xx]; lv_args := [] |}] [] None [].
+Definition ex_u_open : formatter :=
+  {| f_kind := FPlain; f_styles := f_styles ex_plainf;
+     f_stack := match aget str_eqb [117]%N (f_styles ex_plainf) with Some p => [p] | None => [] end |}.
+Lemma ex_xx_fine : opt_fine ex_xx.
+Proof. split; [ex_plain|]. split; [exact I|]. split; [repeat constructor; discriminate|]. split; [ex_tagname|repeat constructor; discriminate]. Qed.
+Example command_help_renders_refuted :
+  length (f_stack ex_u_open) = 1%nat /\ needed_width_for (f_styles ex_plainf) ex_xx_page = 10%Z /\
+  page_words_fitb (f_styles ex_plainf) 17 ex_xx_page = false /\ page_words_fitb (f_styles ex_plainf) 24 ex_xx_page = true /\
+  render_page 17 ex_u_open ex_xx_page = Err ValueError /\ render_page 18 ex_u_open ex_xx_page = Err ValueError /\
+  (match render_page 16 ex_u_open ex_xx_page, render_page 19 ex_u_open ex_xx_page, render_page 17 ex_plainf ex_xx_page, render_page 24 ex_u_open ex_xx_page with
+   | Ok _, Ok _, Ok _, Ok _ => True | _, _, _, _ => False end).
+Proof. vm_compute. repeat split; reflexivity. Qed.
+
+(* REFUTED for the application page with the EMPTY stack.  The application "app", display name "D", a version of 22 characters
+   and the single global option --xx (integer, default 3, value name "level", description "abcdefgh ij"): tag-free, all
+   configuration hypotheses met; the visible labels need 15 columns (the identity formatter: 33).  At 21 columns the first
+   paragraph "D version <c1>1111111111111111111111</c1>" is wrapped at 20 and its long word is broken twice - "D version
+   <c1>111111" / "1111111111111111</c1" / ">": the closing tag is cut, c1 stays open.  Further down the option's text is wrapped
+   at 7 - "abcdefg" / "h ij <b" / ">(defau" / "lt:" / "3)</b>": the opening tag is cut, the closing one is found, and b is not
+   on the stack [c1]: ValueError.  At 20 and 22
+   columns, or with a version of 21 characters, the page renders.  Observed alike on the Python code (ApplicationHelp of a
+   ConsoleApplication over ApplicationConfig("app", "1" * 22) with display name "D" and that option, BufferedIO of width 21,
+   PlainFormatter and AnsiFormatter: ValueError "Incorrectly nested style tag found."; widths 19, 20, 22, 23: no error). *)
+Definition ex_xx2 : hopt :=
+  {| h_o := {| o_long := [120;120]%N; o_short := None; o_flags := 8 + 512 + 1; o_default := VInt 3 |};
+     h_odesc := Some [97;98;99;100;101;102;103;104;32;105;106]%N; h_vname := LEVEL |}.
+Definition ex_long_version_page : layout :=
+  application_page (f_styles ex_plainf) (Some APP) (Some [68]%N) (Some (repeat 49%N 22)) [ex_xx2] [] None.
+Lemma ex_xx2_fine : opt_fine ex_xx2.
+Proof. split; [ex_plain|]. split; [exact I|]. split; [repeat constructor; discriminate|]. split; [ex_tagname|repeat constructor; discriminate]. Qed.
+Example application_help_renders_refuted :
+  f_stack ex_plainf = [] /\ needed_width_for (f_styles ex_plainf) ex_long_version_page = 15%Z /\ needed_width ex_long_version_page = 33%Z /\
+  plain (repeat 49%N 22) /\
+  page_words_fitb (f_styles ex_plainf) 21 ex_long_version_page = false /\ page_words_fitb (f_styles ex_plainf) 36 ex_long_version_page = true /\
+  render_page 21 ex_plainf ex_long_version_page = Err ValueError /\ render_page 21 ex_ansif ex_long_version_page = Err ValueError /\
+  (match render_page 20 ex_plainf ex_long_version_page, render_page 22 ex_plainf ex_long_version_page, render_page 36 ex_plainf ex_long_version_page with
+   | Ok _, Ok _, Ok _ => True | _, _, _ => False end).
+Proof. split; [reflexivity|]. split; [vm_compute; reflexivity|]. split; [vm_compute; reflexivity|]. split; [ex_plain|]. vm_compute. repeat split; reflexivity. Qed.
